@@ -5,7 +5,7 @@ use ebml_iterable::TagIterator;
 use crate::alloc;
 use crate::ctx::Ctx;
 use crate::obs::{drive, make_iter, Cfg, MaxSize, NErr, Obs, Script, Term};
-use crate::refmodel::{hex, id_bytes, vint_encode};
+use crate::refmodel::{hex, id_bytes, vint_encode, NItem};
 use crate::spec::*;
 
 #[derive(Clone, Copy, Debug, PartialEq, Eq)]
@@ -262,13 +262,101 @@ fn histories(ctx: &mut Ctx) {
     }
 }
 
+/// The limit that counts is the one in force when an element is reached: lowering it between two next() calls applies
+/// to everything read afterwards, also inside masters that were opened under the earlier limit.
+fn reconfiguration(ctx: &mut Ctx) {
+    let mut k = 0u64;
+    for outer_known in [true, false] {
+        for old in [MaxSize::Default, MaxSize::Unlimited, MaxSize::Limit(1 << 30)] {
+            for m in [5usize, 1000] {
+                for (el_id, el_name) in [(ID_B, "B"), (ID_S, "S"), (ID_M, "M(master)"), (0xf2u64, "unknown-id")] {
+                    for s in [m as u64 + 1, 1 << 26] {
+                        for allow in [0u8, crate::obs::ALLOW_OVERSIZED, crate::obs::ALLOW_IDS | crate::obs::ALLOW_HIER] {
+                            for cap in [None, Some(16usize)] {
+                                let mine = ctx.mine(k);
+                                k += 1;
+                                if !mine || (el_id == 0xf2 && allow & crate::obs::ALLOW_IDS == 0) {
+                                    continue;
+                                }
+                                let mut el = id_bytes(el_id);
+                                el.extend(vint_encode(s, 8).unwrap());
+                                el.extend_from_slice(&[0x41; 4]);
+                                let mut input = vec![0x81u8];
+                                if outer_known {
+                                    input.extend(vint_encode(el.len() as u64 - 4 + s, 8).unwrap());
+                                } else {
+                                    input.push(0xff);
+                                }
+                                let el_start = input.len();
+                                input.extend(&el);
+                                let cfg = Cfg { allow, buffered: vec![], cap, max_size: old, eof_end: true };
+                                let d = || format!("reconfiguration: Root({}) opened under {:?}, then set_max_allowable_tag_size(Some({})), then {} declaring S={} ; {}", if outer_known { "known size, roomy" } else { "unknown size" }, old, m, el_name, s, cfg.short());
+                                if !ctx.enter(&d) {
+                                    continue;
+                                }
+                                ctx.nontrivial();
+                                ctx.count("limit_lowered_between_calls", 1);
+                                let capn = cap.unwrap_or(65536).max(16);
+                                let bound = 8 * m.max(capn) + (64 << 10);
+                                let mk = alloc::mark();
+                                let src = Script::new(&input, &[]);
+                                let mut it: TagIterator<Script, V> = make_iter(src, &cfg);
+                                let first = crate::obs::step_next(&mut it);
+                                let mut log = vec![format!("{:?}", first.as_ref().map(|o| o.as_ref().map(|r| r.as_ref().map(|x| x.0.short()).map_err(|e| e.short()))))];
+                                it.set_max_allowable_tag_size(Some(m));
+                                let mut emitted_el = false;
+                                let mut rejected = false;
+                                let mut panic = None;
+                                for _ in 0..6 {
+                                    ctx.transitions += 1;
+                                    match crate::obs::step_next(&mut it) {
+                                        Err(p) => {
+                                            panic = Some(p);
+                                            break;
+                                        }
+                                        Ok(None) => break,
+                                        Ok(Some(Ok((item, off)))) => {
+                                            if off == el_start && item.id() == el_id && !item.is_end() {
+                                                emitted_el = true;
+                                            }
+                                            log.push(format!("{}@{}", item.short(), off));
+                                        }
+                                        Ok(Some(Err(e))) => {
+                                            log.push(format!("Err({})", e.short()));
+                                            rejected = !matches!(e, NErr::Eof { .. } | NErr::Read { .. });
+                                            break;
+                                        }
+                                    }
+                                }
+                                let growth = alloc::peak_since(mk);
+                                ctx.outcome(&(rejected, emitted_el, log.len()));
+                                if let Some(p) = panic {
+                                    ctx.violation("reconfiguration/panic", &d, &p);
+                                } else if !matches!(first, Ok(Some(Ok((NItem::Start(ID_ROOT), 0))))) {
+                                    ctx.violation("reconfiguration/outer-master-not-opened", &d, &log.join(" "));
+                                } else if growth > bound {
+                                    ctx.violation("reconfiguration/allocation-exceeds-bound", &d, &format!("peak heap growth {} > 8*max(M,capacity)+64KiB = {} (largest single request {}) | calls: {}", growth, bound, alloc::max_request(), log.join(" ")));
+                                } else if emitted_el || !rejected {
+                                    ctx.violation("reconfiguration/over-limit-element-not-rejected", &d, &format!("calls: {}", log.join(" ")));
+                                }
+                                ctx.validated += 1;
+                                ctx.leave();
+                            }
+                        }
+                    }
+                }
+            }
+        }
+    }
+}
+
 pub fn run(ctx: &mut Ctx) {
     alloc::REFUSE_ABOVE.store(256 << 20, std::sync::atomic::Ordering::Relaxed);
     let quick = ctx.quick();
-    ctx.meta("rule", "cases: header-only streams: an element of every type (U, I, F, S, B, master, global Void, unknown id) at root, inside a small known-size master, inside a known-size master with room, inside an unknown-size master, declaring S in {0,1,M-1,M,M+1,2M,2^20,2^30,2^40,2^56-2} in every VINT width that can hold it, payload absent / 3 bytes present / followed by a 200 KB tail, x limit M in {5,16,1000,2^20,default} x capacity {16,4096,default} x 8 tolerance subsets; a counting global allocator measures peak heap growth around the whole iteration. Oracle: S > M => a CorruptedFileData error (the size error unless an earlier-ordered check fires) with nothing emitted for the element, peak growth <= growth of the same stream with S:=0 plus 4 KiB (independent of S), bytes pulled from the source <= buffer capacity + header; S <= M with the payload missing => growth <= 8*max(S,capacity)+64 KiB; never a panic. Long streams of 10-30 thousand elements of varying small sizes: the largest slice ever offered to read() <= 4*max(capacity, largest payload). Call histories over a source that delivers its data in two stages with a stall (Ok(0) or a read error) in between: stage 1 = nothing / an element / an open master, then junk; next() until the error, try_recover() (which fails at the end of the available data, or succeeds), resume, stage 2 = 0 or 2 junk bytes and an element declaring S in {1001, 2^26, 2^40} > M: peak growth <= 8*max(M,capacity)+64 KiB over the whole history, the element is never emitted. A single allocation request above 256 MiB aborts the worker and is reported. Non-trivial: S > capacity.");
+    ctx.meta("rule", "cases: header-only streams: an element of every type (U, I, F, S, B, master, global Void, unknown id) at root, inside a small known-size master, inside a known-size master with room, inside an unknown-size master, declaring S in {0,1,M-1,M,M+1,2M,2^20,2^30,2^40,2^56-2} in every VINT width that can hold it, payload absent / 3 bytes present / followed by a 200 KB tail, x limit M in {5,16,1000,2^20,default} x capacity {16,4096,default} x 8 tolerance subsets; a counting global allocator measures peak heap growth around the whole iteration. Oracle: S > M => a CorruptedFileData error (the size error unless an earlier-ordered check fires) with nothing emitted for the element, peak growth <= growth of the same stream with S:=0 plus 4 KiB (independent of S), bytes pulled from the source <= buffer capacity + header; S <= M with the payload missing => growth <= 8*max(S,capacity)+64 KiB; never a panic. Long streams of 10-30 thousand elements of varying small sizes: the largest slice ever offered to read() <= 4*max(capacity, largest payload). Call histories over a source that delivers its data in two stages with a stall (Ok(0) or a read error) in between: stage 1 = nothing / an element / an open master, then junk; next() until the error, try_recover() (which fails at the end of the available data, or succeeds), resume, stage 2 = 0 or 2 junk bytes and an element declaring S in {1001, 2^26, 2^40} > M: peak growth <= 8*max(M,capacity)+64 KiB over the whole history, the element is never emitted. Reconfiguration: a known-size (roomy) or unknown-size master opened under the default / no / a 1 GiB limit, then set_max_allowable_tag_size(Some(M)) between two next() calls, then a child declaring S in {M+1, 2^26}: rejected with a corruption error, never emitted, growth bounded by the NEW limit. A single allocation request above 256 MiB aborts the worker and is reported. Non-trivial: S > capacity.");
     ctx.meta("bounds", "sizes, widths, limits, capacities and contexts as listed; within-limit sizes above 2^20 are not executed (they would really allocate)");
     ctx.meta("assumptions", "no buffered masters (the statement excludes them) || allocator accounting counts requested bytes, not allocator overhead");
-    for c in ["over_limit_cases", "within_limit_payload_missing", "over_limit_with_tail", "long_streams", "histories_with_recovery_and_stalls", "histories_with_a_failed_recovery_before_the_oversized_element", "histories_ending_in_the_size_error", "size_error_after_a_failed_recovery"] {
+    for c in ["over_limit_cases", "within_limit_payload_missing", "over_limit_with_tail", "long_streams", "histories_with_recovery_and_stalls", "histories_with_a_failed_recovery_before_the_oversized_element", "histories_ending_in_the_size_error", "size_error_after_a_failed_recovery", "limit_lowered_between_calls"] {
         ctx.expect_nonzero(c);
     }
     let ids: Vec<(u64, &str)> = vec![(ID_U, "U"), (ID_I, "I"), (ID_F, "F"), (ID_S, "S"), (ID_B, "B"), (ID_M, "M(master)"), (ID_VOID, "Void"), (0xf2, "unknown-id")];
@@ -322,6 +410,7 @@ pub fn run(ctx: &mut Ctx) {
         }
     }
     histories(ctx);
+    reconfiguration(ctx);
     let mut case_no = 0u64;
     for (lim, m) in &limits {
         let mut sizes: Vec<u64> = vec![0, 1, m - 1, *m, m + 1, 2 * m, 1 << 20, 1 << 30, 1 << 40, (1 << 56) - 2];
